@@ -24,10 +24,14 @@ var registry = map[string]entry{
 	"C04": {"exploration", props.C04},
 	"C05": {"exploration", props.C05},
 	"C06": {"exploration", props.C06},
+	"C07": {"exploration", props.C07},
+	"C11": {"exploration", props.C11},
 	"C12": {"exploration", props.C12},
 	"C13": {"exploration", props.C13},
 	"C14": {"exploration", props.C14},
 	"C15": {"exploration", props.C15},
+	"C24": {"exploration", props.C24},
+	"C25": {"exploration", props.C25},
 	"C27": {"exploration", props.C27},
 	"C28": {"exploration", props.C28},
 	"C20": {"exploration", comp.C20},
@@ -50,6 +54,9 @@ func main() {
 		os.Exit(2)
 	}
 	id := os.Args[1]
+	if dispatchChild(id, os.Args[2:]) {
+		return
+	}
 	fs := flag.NewFlagSet("vcheck", flag.ExitOnError)
 	tier := fs.String("tier", "", "quick|thorough")
 	_ = fs.Parse(os.Args[2:])
@@ -58,9 +65,6 @@ func main() {
 	}
 	if *tier != "thorough" {
 		*tier = "quick"
-	}
-	if dispatchChild(id, fs.Args()) {
-		return
 	}
 	e, ok := registry[id]
 	if !ok {
@@ -73,4 +77,9 @@ func main() {
 }
 
 // dispatchChild runs child-process roles (crash workers, lock holders...). Filled in by engines.
-func dispatchChild(id string, args []string) bool { return false }
+func dispatchChild(id string, args []string) bool {
+	if len(args) >= 2 && args[0] == "--child-ro" {
+		os.Exit(props.ChildRO(args[1]))
+	}
+	return false
+}
